@@ -17,6 +17,10 @@ import DeapModel.Lemmas.C12Tok
 import DeapModel.Lemmas.C12Parse
 import DeapModel.Lemmas.C12Adf
 import DeapModel.Lemmas.C12PyTree
+import DeapModel.Lemmas.C12Graph
+import DeapModel.Lemmas.C12Sem
+import DeapModel.Lemmas.C11Semantic
+import Mathlib.Analysis.SpecialFunctions.Log.Basic
 
 namespace C12
 open GpTree GpCompile
@@ -374,5 +378,196 @@ example : ∀ pt ∈ [((⟨"MAIN".toList, ["x".toList, "y".toList], ⟨fun _ => 
   intro pt hpt
   simp only [List.mem_cons, List.not_mem_nil, or_false] at hpt
   rcases hpt with rfl | rfl <;> exact ⟨by decide, by decide, by decide, by decide⟩
+
+/-! ## `gp.graph`: nodes, labels and the parent → child edges of the prefix tree -/
+
+/-- `nodes` is `range(len(expr))`, and `labels` maps every index to the node's name (a primitive) or value
+(a terminal / ephemeral constant; the text the model carries for it) -/
+theorem graph_nodes_labels (l : List Prim) :
+    graphNodes l = List.range l.length ∧ (graphLabels l).length = l.length ∧
+    ∀ i (hi : i < l.length), (graphLabels l)[i]? = some (if l[i].kind = .prim then l[i].name else l[i].text) := by
+  refine ⟨rfl, by simp [graphLabels], ?_⟩
+  intro i hi
+  simp [graphLabels, labelOf, hi]
+
+/-- **The edges are exactly the parent → child relation of the tree the prefix list denotes.**  For every well-formed
+tree `t` (any arities and depths), the stack loop of `graph` run on `flatten t` returns an edge `(i, j)` iff the node
+with index `j` is a child of the node with index `i` (`IsChild`: the subtree rooted at `i` has a child whose root sits
+at `j`); the list is the depth-first listing `edgesT 0 t`; there are `len − 1` edges; and the targets of the edges
+are `1, 2, …, len − 1`, each once and in this order — every node but the root has exactly one parent. -/
+theorem graph_edges_tree (t : Tree) (hw : wf t = true) :
+    (∀ i j, (i, j) ∈ graphEdges (flatten t) ↔ IsChild t i j) ∧
+    graphEdges (flatten t) = edgesT 0 t ∧
+    (graphEdges (flatten t)).length = (flatten t).length - 1 ∧
+    (graphEdges (flatten t)).map Prod.snd = List.range' 1 ((flatten t).length - 1) := by
+  have e := graphEdges_flatten t hw
+  have hs := edgesT_snd 0 t
+  rw [flatten_length, e]
+  refine ⟨fun i j => mem_edgesT_zero t i j, rfl, ?_, by simpa using hs⟩
+  have := congrArg List.length hs
+  simpa using this
+
+example : wf exTree = true ∧ graphEdges (flatten exTree) = [(0, 1), (1, 2), (0, 3)] ∧
+    graphLabels (flatten exTree) = ["add", "neg", "x", "-3"] := by decide
+
+/-- every node other than the root has exactly one parent, and it precedes the node; the root has none -/
+theorem graph_unique_parent (t : Tree) (hw : wf t = true) (j : Nat) :
+    (0 < j ∧ j < (flatten t).length →
+      ∃ i, (i, j) ∈ graphEdges (flatten t) ∧ ∀ i', (i', j) ∈ graphEdges (flatten t) → i' = i) ∧
+    (∀ i, (i, j) ∈ graphEdges (flatten t) → 0 < j ∧ j < (flatten t).length) := by
+  obtain ⟨_, _, _, hs⟩ := graph_edges_tree t hw
+  have hmem : ∀ i, (i, j) ∈ graphEdges (flatten t) → j ∈ List.range' 1 ((flatten t).length - 1) := by
+    intro i hi
+    rw [← hs]
+    exact List.mem_map.2 ⟨(i, j), hi, rfl⟩
+  have hnd : ((graphEdges (flatten t)).map Prod.snd).Nodup := by rw [hs]; exact List.nodup_range' 1
+  constructor
+  · rintro ⟨h0, hlt⟩
+    have hj : j ∈ (graphEdges (flatten t)).map Prod.snd := by
+      rw [hs, List.mem_range'_1]; omega
+    obtain ⟨⟨i, j'⟩, hin, rfl⟩ := List.mem_map.1 hj
+    refine ⟨i, hin, ?_⟩
+    intro i' hi'
+    have := List.inj_on_of_nodup_map hnd hi' hin rfl
+    exact (Prod.mk.inj this).1
+  · intro i hi
+    have := hmem i hi
+    rw [List.mem_range'_1] at this
+    omega
+
+example : 0 < 2 ∧ 2 < (flatten exTree).length := by decide
+
+/-! ## What the geometric semantic operators compute -/
+
+/-- the compile model's `evalTree` is the value-generic denotation `evalG` at the carrier of Python values: the
+denotation theorems below, stated for any carrier, are statements about what `gp.compile` makes of the offspring
+(`evalSrc_compile`: compiled callable = `evalTree`) -/
+theorem evalTree_is_evalG (env : Env) (t : Tree) : evalTree env t = evalG (toEnvG env) t :=
+  evalTree_eq_evalG env t
+
+/-- **Denotation of a semantic mutant, any carrier.**  Let the operator return `out` for the parent `flatten ti`.
+Then `out` is the prefix form of `add(ti, mul(ms, sub(lf(t1), lf(t2))))` for the two generated trees `t1`, `t2`, and
+in every environment that binds the four names to functions `fadd`, `fmul`, `fsub`, `flf` and reads the constant's
+text as the value `msv`, it denotes `fadd a (fmul msv (fsub (flf b) (flf c)))` where `a`, `b`, `c` are the values of
+the parent and of the two random trees. -/
+theorem semantic_mut_denotes {α : Type} {env : EnvG α} {mapping : String → Option Prim} {reprF : Float → String}
+    {ti : Tree} {out : List Prim} {gen : Tape → R (List Prim × Tape)} {ms : Option Float} {tp tp' : Tape}
+    (hgen : ∀ tp o tp', gen tp = .ok (o, tp') → ∃ t, wf t = true ∧ flatten t = o)
+    (h : mutSemantic mapping reprF (flatten ti) gen ms tp = .ok (out, tp')) :
+    ∃ pc t1 t2 text, semPieces mapping = some pc ∧ wf t1 = true ∧ wf t2 = true ∧
+      out = flatten (semMutTree pc (constNode text) ti t1 t2) ∧
+      ∀ (fadd fmul fsub : α → α → α) (flf : α → α) (msv a b c : α),
+        SemEnv env pc fadd fmul fsub flf → ConstDenotes env text msv →
+        evalG env ti = some a → evalG env t1 = some b → evalG env t2 = some c →
+        evalG env (semMutTree pc (constNode text) ti t1 t2) = some (fadd a (fmul msv (fsub (flf b) (flf c)))) := by
+  obtain ⟨pc, tr1, tp1, tr2, tp2, v, hpc, h1, h2, _, rfl⟩ := mutSemantic_ok h
+  obtain ⟨t1, hw1, rfl⟩ := hgen _ _ _ h1
+  obtain ⟨t2, hw2, rfl⟩ := hgen _ _ _ h2
+  refine ⟨pc, t1, t2, reprF v, hpc, hw1, hw2, semMutList_flatten _ _ _ _ _, ?_⟩
+  intro fadd fmul fsub flf msv a b c he hc ha hb hcc
+  exact evalG_semMutTree he hc ha hb hcc
+
+/-- the logistic function the GSGP papers (and the docstrings) use for `lf` -/
+noncomputable def logistic (x : ℝ) : ℝ := 1 / (1 + Real.exp (-x))
+
+theorem logistic_unit (x : ℝ) : 0 < logistic x ∧ logistic x < 1 := by
+  have h := Real.exp_pos (-x)
+  unfold logistic
+  constructor
+  · positivity
+  · rw [div_lt_one (by positivity)]; linarith
+
+/-- a real-valued environment for a GSGP set: `add`, `mul`, `sub` are the field operations, `lf` the logistic function -/
+def RealGsgp (env : EnvG ℝ) (pc : SemPieces) : Prop :=
+  SemEnv env pc (· + ·) (· * ·) (· - ·) logistic
+
+/-- **Over the reals: `mutSemantic(ind)` denotes `ind + ms · (lf(tr1) − lf(tr2))`**, a perturbation of the parent's
+value by less than `|ms|` (the two logistic values lie in `(0, 1)`). -/
+theorem semantic_mut_denotes_real {env : EnvG ℝ} {pc : SemPieces} (he : RealGsgp env pc) {text : String} {ms : ℝ}
+    (hc : ConstDenotes env text ms) {ti t1 t2 : Tree} {a b c : ℝ}
+    (ha : evalG env ti = some a) (hb : evalG env t1 = some b) (hcc : evalG env t2 = some c) :
+    evalG env (semMutTree pc (constNode text) ti t1 t2) = some (a + ms * (logistic b - logistic c)) ∧
+    |a + ms * (logistic b - logistic c) - a| ≤ |ms| := by
+  refine ⟨evalG_semMutTree he hc ha hb hcc, ?_⟩
+  have hb' := logistic_unit b
+  have hc' := logistic_unit c
+  have : a + ms * (logistic b - logistic c) - a = ms * (logistic b - logistic c) := by ring
+  rw [this, abs_mul]
+  have h1 : |logistic b - logistic c| ≤ 1 := by
+    rw [abs_le]; constructor <;> linarith [hb'.1, hb'.2, hc'.1, hc'.2]
+  calc |ms| * |logistic b - logistic c| ≤ |ms| * 1 := mul_le_mul_of_nonneg_left h1 (abs_nonneg _)
+    _ = |ms| := mul_one _
+
+/-- a concrete real environment satisfying the hypotheses: names `add mul sub lf`, the variable `ARG0 = 3`, every other
+text reads as the constant `1/2` -/
+noncomputable def exRealEnv : EnvG ℝ where
+  funs := fun k =>
+    if k = "add".toList then some (fun vs => match vs with | [a, b] => some (a + b) | _ => none)
+    else if k = "mul".toList then some (fun vs => match vs with | [a, b] => some (a * b) | _ => none)
+    else if k = "sub".toList then some (fun vs => match vs with | [a, b] => some (a - b) | _ => none)
+    else if k = "lf".toList then some (fun vs => match vs with | [a] => some (logistic a) | _ => none)
+    else none
+  vars := fun k => if k = "ARG0".toList then some 3 else none
+  lit := fun _ => some (1 / 2)
+
+example : RealGsgp exRealEnv ⟨gsLf, gsMul, gsAdd, gsSub⟩ ∧ ConstDenotes exRealEnv "0.5" (1 / 2) ∧
+    evalG exRealEnv (.node gsX []) = some 3 := by
+  refine ⟨⟨rfl, rfl, rfl, rfl, ?_, ?_, ?_, ?_⟩, ⟨?_, ?_⟩, ?_⟩
+  all_goals simp [exRealEnv, gsAdd, gsMul, gsSub, gsLf, gsX, evalG]
+  all_goals (funext vs; rcases vs with _ | ⟨a, _ | ⟨b, _ | ⟨c, _⟩⟩⟩ <;> rfl)
+
+/-- **Denotation of the semantic offspring, any carrier.**  For parents `flatten ta`, `flatten tb` the operator
+returns `child1 = add(mul(ta, lf(tr)), mul(sub(1.0, lf(tr)), tb))` and — because the first parent object has already
+become the first child when the second child is assembled — `child2 = add(mul(tb, lf(tr)), mul(sub(1.0, lf(tr)),
+child1))`; their values are `fadd (fmul a r') (fmul (fsub one r') b)` and `fadd (fmul b r') (fmul (fsub one r') v1)`
+with `r' = flf r` and `v1` the value of child 1. -/
+theorem semantic_cx_denotes {α : Type} {env : EnvG α} {mapping : String → Option Prim} {reprF : Float → String}
+    {ta tb : Tree} {o1 o2 : List Prim} {gen : Tape → R (List Prim × Tape)} {tp tp' : Tape}
+    (hgen : ∀ tp o tp', gen tp = .ok (o, tp') → ∃ t, wf t = true ∧ flatten t = o)
+    (h : cxSemantic mapping reprF (flatten ta) (flatten tb) gen tp = .ok (o1, o2, tp')) :
+    ∃ pc tr text, semPieces mapping = some pc ∧ wf tr = true ∧
+      o1 = flatten (semCxTree pc (constNode text) ta tb tr) ∧
+      o2 = flatten (semCxTree pc (constNode text) tb (semCxTree pc (constNode text) ta tb tr) tr) ∧
+      ∀ (fadd fmul fsub : α → α → α) (flf : α → α) (one a b r : α),
+        SemEnv env pc fadd fmul fsub flf → ConstDenotes env text one →
+        evalG env ta = some a → evalG env tb = some b → evalG env tr = some r →
+        evalG env (semCxTree pc (constNode text) ta tb tr) = some (fadd (fmul a (flf r)) (fmul (fsub one (flf r)) b)) ∧
+        evalG env (semCxTree pc (constNode text) tb (semCxTree pc (constNode text) ta tb tr) tr) =
+          some (fadd (fmul b (flf r)) (fmul (fsub one (flf r)) (fadd (fmul a (flf r)) (fmul (fsub one (flf r)) b)))) := by
+  obtain ⟨pc, l, hpc, hg, e1, e2⟩ := cxSemantic_ok h
+  obtain ⟨tr, hwr, rfl⟩ := hgen _ _ _ hg
+  rw [semCxList_flatten] at e1
+  subst e1
+  rw [semCxList_flatten] at e2
+  subst e2
+  refine ⟨pc, tr, reprF 1.0, hpc, hwr, rfl, rfl, ?_⟩
+  intro fadd fmul fsub flf one a b r he hc ha hb hr
+  have v1 := evalG_semCxTree he hc ha hb hr
+  exact ⟨v1, evalG_semCxTree he hc hb v1 hr⟩
+
+/-- **Over the reals: the first child denotes `tr'·ind1 + (1 − tr')·ind2` with `tr' = lf(tr) ∈ (0, 1)`** — a convex
+combination, so its value lies between the parents' values (the geometric property of the crossover).  The second
+child denotes `tr'·ind2 + (1 − tr')·child1` (NOT `tr'·ind2 + (1 − tr')·ind1`, which is what the docstring announces):
+still a convex combination of the parents' values, with weight `tr'·(1 − tr')` on `ind1`. -/
+theorem semantic_cx_denotes_real {env : EnvG ℝ} {pc : SemPieces} (he : RealGsgp env pc) {text : String}
+    (hc : ConstDenotes env text 1) {ta tb tr : Tree} {a b r : ℝ}
+    (ha : evalG env ta = some a) (hb : evalG env tb = some b) (hr : evalG env tr = some r) :
+    evalG env (semCxTree pc (constNode text) ta tb tr) = some (logistic r * a + (1 - logistic r) * b) ∧
+    evalG env (semCxTree pc (constNode text) tb (semCxTree pc (constNode text) ta tb tr) tr) =
+      some (logistic r * b + (1 - logistic r) * (logistic r * a + (1 - logistic r) * b)) ∧
+    min a b ≤ logistic r * a + (1 - logistic r) * b ∧ logistic r * a + (1 - logistic r) * b ≤ max a b := by
+  have v1 := evalG_semCxTree he hc ha hb hr
+  have v2 := evalG_semCxTree he hc hb v1 hr
+  have hl := logistic_unit r
+  refine ⟨by rw [v1]; congr 1; ring, by rw [v2]; congr 1; ring, ?_, ?_⟩
+  · have h1 : min a b ≤ a := min_le_left _ _
+    have h2 : min a b ≤ b := min_le_right _ _
+    nlinarith [hl.1, hl.2]
+  · have h1 : a ≤ max a b := le_max_left _ _
+    have h2 : b ≤ max a b := le_max_right _ _
+    nlinarith [hl.1, hl.2]
+
+example : ConstDenotes exRealEnv "0.5" (1 / 2) ∧ evalG exRealEnv (.node gsX []) = some 3 := by
+  refine ⟨⟨?_, ?_⟩, ?_⟩ <;> simp [exRealEnv, gsX, evalG]
 
 end C12
